@@ -139,11 +139,11 @@ fn cosim_server(rx: Receiver<Req>, ready: Sender<Result<(), String>>) {
     let scratch = vcore::util::Scratch::new("c36-cosim");
     let mut src = String::from("module C36Top (\n");
     for w in PORT_WIDTHS {
-        src.push_str(&format!("    i{w}: input  logic<{w}>,\n    o{w}: output logic<{w}>,\n"));
+        src.push_str(&format!("    pi{w}: input  logic<{w}>,\n    po{w}: output logic<{w}>,\n"));
     }
     src.push_str(") {\n");
     for w in PORT_WIDTHS {
-        src.push_str(&format!("    assign o{w} = i{w};\n"));
+        src.push_str(&format!("    assign po{w} = pi{w};\n"));
     }
     src.push_str("}\n");
     let file = scratch.join("c36top.veryl");
@@ -158,8 +158,8 @@ fn cosim_server(rx: Receiver<Req>, ready: Sender<Result<(), String>>) {
     let _ = ready.send(Ok(()));
     for req in rx {
         let input: [SvLogicVecVal; 4] = std::array::from_fn(|i| SvLogicVecVal { aval: req.words[i].0, bval: req.words[i].1 });
-        let iname = CString::new(format!("i{}", req.port_width)).unwrap();
-        let oname = CString::new(format!("o{}", req.port_width)).unwrap();
+        let iname = CString::new(format!("pi{}", req.port_width)).unwrap();
+        let oname = CString::new(format!("po{}", req.port_width)).unwrap();
         let mut gi = [SvLogicVecVal { aval: 0xdead_beef, bval: 0xdead_beef }; 4];
         let mut go = gi;
         unsafe {
@@ -194,7 +194,7 @@ fn cosim_case(tx: &Mutex<Sender<Req>>, d: &mut Draw) -> Outcome {
     let Ok((gi, go)) = rrx.recv() else {
         return Outcome::skip("cosim server gone");
     };
-    let text = format!("cosim_set(i{pw}, {}) -> port holds {}", show(&words), kept.with_signed(false));
+    let text = format!("cosim_set(pi{pw}, {}) -> port holds {}", show(&words), kept.with_signed(false));
     for (what, got) in [("input port read back", gi), ("through `assign o = i`", go)] {
         if got != expected {
             let sig = if got.iter().zip(expected.iter()).skip(pw.div_ceil(32)).any(|(g, e)| g != e) {
@@ -280,10 +280,11 @@ pub fn run(ctx: &Ctx) {
         ctx.note("enumerated_widths", json!("1..=300"));
     }
 
-    let n = ctx.scale(150_000, 5_000_000);
+    let n = ctx.scale(1_000_000, 10_000_000);
     ctx.run("svlogic", CaseCfg::cases(n).choices(80).same_thread(), |d| {
         let w = draw_width(d);
-        let bv = draw_bv(d, w, d.bool());
+        let sg = d.bool();
+        let bv = draw_bv(d, w, sg);
         let text = bv.to_string();
         match check_conversions(&bv) {
             Err((sig, msg)) => Outcome::fail(sig, msg, json!({"value": text})),
@@ -318,7 +319,7 @@ pub fn run(ctx: &Ctx) {
     match rrx.recv() {
         Ok(Ok(())) => {
             let tx = Mutex::new(tx);
-            let n = ctx.scale(20_000, 400_000);
+            let n = ctx.scale(200_000, 2_000_000);
             ctx.run("cosim", CaseCfg::cases(n).choices(80).threads(1).same_thread(), |d| cosim_case(&tx, d));
             drop(tx);
             let _ = server.join();
